@@ -32,11 +32,13 @@ def cases(tier, seed):
     for n in (1, 2, 3, 4):
         for roles in itertools.product("io", repeat=n):
             yield {"fam": "one", "roles": "".join(roles)}
+    for eps in (1.0, 1e-3, 1e-8, 5e-9, 1e-12, -5e-9):
+        yield {"fam": "tiny", "eps": eps}
 
 
 def expected_cases(tier, seed):
     ns = (1, 2, 3, 4, 5) + ((6,) if tier == "thorough" else ())
-    return sum(8 ** n for n in ns) + sum(2 ** n for n in (1, 2, 3, 4))
+    return sum(8 ** n for n in ns) + sum(2 ** n for n in (1, 2, 3, 4)) + 6
 
 
 def _specs(roles, pat):
@@ -166,8 +168,12 @@ def _one(case):
                 ref = _ref_rename(ins, outs, src, tgt)
                 sub = {"op": "rename", "src": src, "tgt": tgt}
                 SA.ENV = SA.Env()
+                snap = SA._snap(c, c)
                 try:
                     r = c.rename_variable(Var(src), Var(tgt))
+                    if SA._snap(c, c) != snap:
+                        out.append(("rename:modified-operand", True, None, {"sub": sub, "what": "rename_variable modified the contract it was called on"}))
+                        c = SA.mk_contract(spec)
                 except IncompatibleArgsError:
                     out.append(("rename:rejected", True, None, None if ref is None else
                                 {"sub": sub, "what": "rename rejected although the result is a well-formed contract"}))
@@ -193,7 +199,11 @@ def _one(case):
                         viol = {"sub": sub, "what": "constraints not renamed consistently"}
                 out.append(("rename:ok", True, (tuple(got[0]), tuple(got[1])), viol))
         SA.ENV = SA.Env()
-        k = c.copy()
+        try:
+            k = c.copy()
+        except Exception as e:  # noqa
+            out.append(("copy:raised", False, None, {"sub": {"op": "copy"}, "what": "copy raised %s" % type(e).__name__}))
+            k = c = SA.mk_contract(spec)
         viol = None
         if [v.name for v in k.inputvars] != ins or [v.name for v in k.outputvars] != outs or SA.well_formed(k) \
                 or [t.name for t in k.a.terms] != [t.name for t in c.a.terms] or [t.name for t in k.g.terms] != [t.name for t in c.g.terms]:
@@ -227,5 +237,43 @@ def _one(case):
     return out
 
 
+def _tiny(case):
+    """polyhedral contents whose offending variable carries a tiny (but non-zero) coefficient: still a mention of that variable"""
+    from ..build import plist, pvars
+    from pacti.contracts import PolyhedralIoContract
+
+    eps = case["eps"]
+    out = []
+    bad = [
+        ("assumption on an output", [[{"i": 1, "o": eps}, 1]], [[{"o": 1}, 1]], ["i"], ["o"]),
+        ("assumption on a foreign variable", [[{"i": 1, "w": eps}, 1]], [[{"o": 1}, 1]], ["i"], ["o"]),
+        ("guarantee on a foreign variable", [[{"i": 1}, 1]], [[{"o": 1, "w": -eps}, 1]], ["i"], ["o"]),
+    ]
+    for what, a, g, i_, o_ in bad:
+        sub = {"op": "ctor", "bad": what, "eps": eps}
+        try:
+            PolyhedralIoContract(plist(a), plist(g), pvars(i_), pvars(o_))
+            out.append(("ctor:accepted", False, None, {"sub": sub, "what": "constructor accepted ill-formed arguments (%s with coefficient %g)" % (what, eps)}))
+        except IncompatibleArgsError:
+            out.append(("ctor:rejected", True, None, None))
+        except Exception as e:  # noqa
+            out.append(("escaped:" + type(e).__name__, False, None, {"sub": sub, "what": "constructor raised %s" % type(e).__name__}))
+    # feedback onto an input that an assumption constrains (with a tiny coefficient) must be rejected, in both orders
+    c1 = PolyhedralIoContract(plist([[{"i": 1, "p": eps}, 1]]), plist([[{"o": 1, "i": -1}, 0]]), pvars(["i", "p"]), pvars(["o"]))
+    c2 = PolyhedralIoContract(plist([]), plist([[{"p": 1, "o": -1}, 0]]), pvars(["o"]), pvars(["p"]))
+    for a, b, tag in ((c1, c2, "12"), (c2, c1, "21")):
+        sub = {"op": "compose-feedback", "call": tag, "eps": eps}
+        try:
+            r = a.compose(b)
+            out.append(("accepted", False, None, {"sub": sub, "what": "feedback onto an input constrained by an assumption (coefficient %g) was accepted" % eps}))
+        except IncompatibleArgsError:
+            out.append(("rejected", True, None, None))
+        except Exception as e:  # noqa
+            out.append(("escaped:" + type(e).__name__, False, None, {"sub": sub, "what": "compose raised %s" % type(e).__name__}))
+    return out
+
+
 def run_case(case):
+    if case["fam"] == "tiny":
+        return _tiny(case)
     return _two(case) if case["fam"] == "two" else _one(case)
